@@ -63,7 +63,9 @@ for d in sorted(glob.glob(os.path.join(ROOT, "seeded", "*", "meta.json"))):
     sid = os.path.basename(os.path.dirname(d))
     m = json.load(open(d))
     r = res.get(sid)
-    if r:
+    if m.get("retired"):
+        rs = "retired: " + m["retired"]
+    elif r:
         rs = ("**caught** by " if r["caught"] else "MISSED by ") + ", ".join("%s (%d VIOLATION lines)" % (k, v["violations"]) for k, v in r["checks"].items())
     else:
         rs = "not run yet"
